@@ -897,6 +897,12 @@ func c03Case(drv *Driver, r *RNG, idx int) c03Line {
 	if r.Chance(8) {
 		return c03KeyRefs(r, idx)
 	}
+	if r.Chance(7) {
+		return c03NamedPtr(r, idx)
+	}
+	if r.Chance(7) {
+		return c03IfacePayload(r, idx)
+	}
 	line := c03Line{Idx: idx}
 	viaConfig := r.Chance(35)
 	var in reflect.Value
